@@ -106,6 +106,20 @@ def _scaled(pdesc, f):
 def mk_lifetime(case, dims):
     """with case["touch_params"] the parameter arrays handed to the model are overwritten in place by their owner afterwards (before
     any table is read): the model holds the parameters it was given, not whatever the caller's arrays hold later"""
+    if case.get("resettle"):
+        # the model is built with another inflow instant and quadrature order and its tables are read; then the case's settings are
+        # assigned and the same parameters are declared once more through set_prms: the tables are those of the settings in force
+        lt = case["lifetime"]
+        want_at, want_n = lt.get("inflow_at", "middle"), lt.get("n_pts", 1)
+        other = dict(lt, inflow_at="end" if want_at != "end" else "start", n_pts=2 if want_n != 2 else 1)
+        lm = mk_lifetime(dict(case, resettle=False, lifetime=other), dims)
+        _ = lm.sf, lm.pdf
+        lm.inflow_at = want_at
+        lm.n_pts_per_interval = want_n
+        keys = [k for k in ("mean", "std", "shape", "scale") if k in lt]
+        names = dict(mean="mean", std="std", shape="weibull_shape", scale="weibull_scale")
+        lm.set_prms(**{names[k]: mk_param(dims, lt[k]) for k in keys})
+        return lm
     if case.get("touch_params"):
         del MADE_PARAMS[:]
         lm = mk_lifetime(dict(case, touch_params=False), dims)
@@ -219,6 +233,7 @@ def computed_stock(case):
     'twice'       compute() called twice in a row
     'other_first' the same object computed with another (non-zero) driver first, then given the case's driver
     'shared_lm'   another stock computed first with the SAME lifetime-model object
+    'resettled'   computed, then the lifetime model's inflow instant and quadrature order re-assigned, then computed again
     The results are those of a fresh computation in every case (that is what the property under test quantifies over:
     'after compute()', whatever happened to the objects before)."""
     h = case.get("history")
@@ -242,6 +257,11 @@ def computed_stock(case):
     st = mk_stock(case)
     st.compute()
     if h == "twice":
+        st.compute()
+    if h == "resettled":
+        lm = st.lifetime_model
+        lm.inflow_at = "end" if lm.inflow_at != "end" else "start"
+        lm.n_pts_per_interval = 2 if lm.n_pts_per_interval != 2 else 3
         st.compute()
     return st
 
